@@ -237,6 +237,13 @@ def run(ctx):
     models = [dslgen.gen_wire_model(rng, degenerate=rng.choice([0, 0, 0, 0.2]), p_this=rng.choice([0.15, 0.3, 0.5]))
               for _ in range(n)]
     check_models(ctx, models, "random")
+    # a printed line of 64 KiB and more (a long condition expression), with declarations after it in the output
+    long_expr = S("x == 0" + " || x == 1" * 6600)
+    refs = [[S("user"), [0], []]]
+    long_models = [[S("1.1"), [[S("user"), [], []], [S("doc"), [[S("viewer"), [1, 1]]], [[[[S("viewer"), [refs, [], []]]], [], []]]]],
+                    [[S("a_long"), [S("a_long"), long_expr, [[S("x"), [4]]], []]], [S("b_short"), [S("b_short"), S("x > 1"), [[S("x"), [4]]], []]]]]]
+    ctx.extra["long_line_bytes"] = len(long_expr) + 2
+    check_models(ctx, long_models, "long_line")
     maxn = 5 if ctx.tier == "quick" else 6
     trees = [t for k in range(1, maxn + 1) for t in all_trees(k)]
     ctx.extra["exhaustive_tree_nodes"] = maxn
